@@ -63,7 +63,7 @@ def _desc(draw, tier):
         o['fields'] = draw(st.sampled_from(['idN', 'idN', 'id', 'N', 'noid', 'default', 'allfields', 'prog']))
         if o['fields'] == 'prog' and not o['cleaned']:
             o['fields'] = 'allfields'
-        o['style'] = {'idN': draw(st.sampled_from(['id', 'N'])), 'id': 'id', 'N': 'N', 'noid': 'callorder', 'default': draw(st.sampled_from(['id', 'N', 'callorder'])),
+        o['style'] = {'idN': draw(st.sampled_from(['id', 'N', 'positional'])), 'id': 'id', 'N': 'N', 'noid': draw(st.sampled_from(['callorder', 'positional'])), 'default': draw(st.sampled_from(['id', 'N', 'callorder', 'positional'])),
                       'allfields': draw(st.sampled_from(['id', 'N', 'callorder'])), 'prog': draw(st.sampled_from(['id', 'N']))}[o['fields']]
     masks = []
     for p in o['files']:
@@ -83,6 +83,23 @@ def _desc(draw, tier):
     o['thr_rank'] = draw(st.integers(0, 12))
     o['negative'] = draw(st.sampled_from([None, None, None, 'duplicate', 'mixed'])) if layout == 'box' else None
     return {'cat': cat, 'opts': o}
+
+
+EXHAUSTIVE_NOTE = 'two fixed large catalogs (a superslab of 70001 resp. 65537 halos next to a small one) with a positional filter (every 2nd/3rd row of each superslab) and an N threshold; not a complete enumeration of anything'
+
+
+def exhaustive(tier, shard, nshards):
+    spec = [{'A': [0, 1, 0, 0], 'B': [0, 0, 0, 0], 'gone': False}]
+    items = []
+    for k, (rep, style) in enumerate(((70001, 'positional'), (65537, 'N'))):
+        cat = {'layout': 'box', 'box': 500.0, 'velz': 3200.0, 'ppd': 64, 'nprev': 1, 'compression': 'none', 'cleanlayout': 'std', 'int_header': False, 'seed': 77 + k,
+               'slabs': [{'index': 0, 'halos': spec, 'repeat': rep, 'tailA': 0, 'tailB': 0}, {'index': 1, 'halos': spec * 3, 'tailA': 1, 'tailB': 0}]}
+        o = {'cleaned': False, 'passthrough': False, 'files': [0, 1], 'sub': {'AB': 'A', 'cols': ['pid']}, 'fields': 'idN', 'style': style,
+             'masks': [[], []], 'thr_rank': 1 + k, 'negative': None, 'big': True}
+        items.append({'cat': cat, 'opts': o})
+    for i, it in enumerate(items):
+        if i % nshards == shard:
+            yield it
 
 
 def strategy(tier):
@@ -113,7 +130,7 @@ def nontrivial(d):
     counts = [len(cat['slabs'][p]['halos']) for p in o['files']]
     if sum(1 for c in counts if c >= 1) >= 2:
         return True
-    if o['style'] == 'N':
+    if o['style'] in ('N', 'positional'):
         return sum(counts) >= 2
     flatm = [m for ms in o['masks'] for m in ms]
     flato = [x for xs in _owned_counts(cat, o) for x in xs]
@@ -129,7 +146,9 @@ def classes(d):
     cat, o = d['cat'], d['opts']
     c = ['layout=' + cat['layout'], 'cleaned=%s' % o['cleaned'], 'style=' + o['style'], 'fields=' + o['fields'], 'nfiles=%d' % len(o['files']), 'sub=' + ('none' if not o['sub'] else o['sub']['AB'])]
     flatm = [m for ms in o['masks'] for m in ms]
-    if o['style'] != 'N':
+    if o.get('big'):
+        c.append('large-superslab')
+    if o['style'] not in ('N', 'positional'):
         c.append('mask=' + ('empty-table' if not flatm else 'keep-none' if not any(flatm) else 'keep-all' if all(flatm) else 'partial'))
     if o['passthrough']:
         c.append('passthrough')
@@ -292,10 +311,22 @@ def _check(cat, cdesc, o, CompaSOHaloCatalog):
     path = sel if not lc else cat.groupdir
     if not lc and o['files'] == list(range(len(files))) and len(o['masks']) % 2 == 0:
         path = cat.groupdir  # the directory form
+    if not lc and isinstance(path, str) and len(files) >= 2 and not o['passthrough']:
+        # a history in one process: the directory is first loaded while its last superslab is not there yet, then again
+        # once it is. Each load must reflect the directory as it is at that moment.
+        hidden = files[-1] + '.not-yet'
+        os.rename(files[-1], hidden)
+        try:
+            c_before = _load(CompaSOHaloCatalog, path, o, lc)
+        finally:
+            os.rename(hidden, files[-1])
+        n_before = sum(S.n for S in cat.slabs[:-1])
+        if len(c_before.halos) != n_before:
+            raise Violation('directory-load-row-count', 'directory with %d of %d superslabs present: %d rows, expected %d' % (len(files) - 1, len(files), len(c_before.halos), n_before))
     cu = _load(CompaSOHaloCatalog, path, o, lc)
     nexp = sum(cat.slabs[p].n for p in o['files'])
     if len(cu.halos) != nexp:
-        raise Violation('halo-row-count', 'unfiltered load has %d rows, files hold %d' % (len(cu.halos), nexp))
+        raise Violation('halo-row-count', 'unfiltered load has %d rows, files hold %d (the directory listing may be stale)' % (len(cu.halos), nexp))
     su = _slices(cu, ABs, lc) if ABs else None
     if ABs and not lc:
         _check_contiguous(cu, ABs, 'unfiltered load')
@@ -335,6 +366,14 @@ def _check(cat, cdesc, o, CompaSOHaloCatalog):
 
         def ff(h):
             return np.isin(np.asarray(h['id']), keep)
+    elif style == 'positional':
+        # a filter that depends on the position of a row within its superslab (like "every third halo" or a per-superslab
+        # quantile): it must be applied to each superslab as a whole
+        mod = 2 + o['thr_rank'] % 3
+        expmask = np.concatenate([np.arange(cat.slabs[p].n) % mod == 0 for p in o['files']]) if o['files'] else np.zeros(0, bool)
+
+        def ff(h):
+            return np.arange(len(h)) % mod == 0
     else:
         calls = {'k': 0}
         masks = [np.array(m, dtype=bool) for m in o['masks']]
@@ -342,11 +381,13 @@ def _check(cat, cdesc, o, CompaSOHaloCatalog):
 
         def ff(h):
             k = calls['k']
-            calls['k'] += 1
-            m = masks[k]
-            if len(m) != len(h):
-                raise Violation('filter-sees-wrong-rows', 'filter call %d received %d rows, superslab has %d' % (k, len(h), len(m)))
-            return m
+            # an implementation may or may not call the filter for an empty superslab: both are fine
+            while k < len(masks) and len(masks[k]) == 0 and len(h) != 0:
+                k += 1
+            if k >= len(masks) or len(masks[k]) != len(h):
+                raise Violation('filter-sees-wrong-rows', 'filter call received %d rows; the superslabs not yet filtered have %s rows' % (len(h), [len(m) for m in masks[calls['k']:]][:6]))
+            calls['k'] = k + 1
+            return masks[k]
 
     cf = _load(CompaSOHaloCatalog, path, o, lc, filter_func=ff)
     keep_rows = np.flatnonzero(expmask)
